@@ -507,7 +507,31 @@ func scanKalg(c *core.Ctx) []ob {
 			}
 			// first lane: statements up to (excluding) the first statement that mentions index literal 1 on a window
 			laneDone := false
+			// a kernel whose lanes are re-rolled into an inner loop over the window (`for k := 0; k < 8; k++ { z[k] = … }`):
+			// the body of that loop, with its index variable standing for the lane, is the lane
+			var bodyStmts []ast.Stmt
+			laneVars := map[types.Object]bool{}
 			for _, st := range loop.Body.List {
+				switch in := st.(type) {
+				case *ast.ForStmt:
+					if init, ok := in.Init.(*ast.AssignStmt); ok && len(init.Lhs) == 1 {
+						if o := identObj(info, init.Lhs[0]); o != nil {
+							laneVars[o] = true
+						}
+					}
+					bodyStmts = append(bodyStmts, in.Body.List...)
+				case *ast.RangeStmt:
+					if in.Key != nil {
+						if o := identObj(info, in.Key); o != nil {
+							laneVars[o] = true
+						}
+					}
+					bodyStmts = append(bodyStmts, in.Body.List...)
+				default:
+					bodyStmts = append(bodyStmts, st)
+				}
+			}
+			for _, st := range bodyStmts {
 				as, ok := st.(*ast.AssignStmt)
 				if !ok {
 					continue
@@ -529,6 +553,9 @@ func scanKalg(c *core.Ctx) []ob {
 					if ix, ok := nd.(*ast.IndexExpr); ok {
 						if id, ok := unparen(ix.X).(*ast.Ident); ok {
 							if _, isWin := env.win[info.Uses[id]]; isWin {
+								if lv := identObj(info, ix.Index); lv != nil && laneVars[lv] {
+									return true
+								}
 								if lit, ok := unparen(ix.Index).(*ast.BasicLit); !ok || lit.Value != "0" {
 									lane0 = false
 								}
